@@ -10,4 +10,5 @@ open SwayVerif.C24 SwayVerif.LspSched
 #print axioms C24_orig_stuck_waiter_late_store
 #print axioms C24_orig_lost_edit
 #print axioms C24_orig_lost_edit_open_then_change
+#print axioms C24_early_store_stuck
 #print axioms C24_openedFirst_needed
